@@ -118,6 +118,33 @@ def build():
                     "whatever the parser raises and whichever lark exception subclass the handler receives; a path not starting with '/' is parsed as '//' + path; on return _elements_reversed is what the "
                     "parser + transformer produced for that text (the list match() walks upward) and _elements is the same list in the opposite order (the list findall() walks "
                     "downward) -- the link between the two searches of C07"))
+    # ASTXpath.__new__: one object per text (the cache key is the text as given); __init__ above then (re)fills it from the same text
+    sf["xc_get"] = lambda mp, k: VOpt(z3.Select(mp.term, k.term), mp.sort.opt)
+    sf["xc_set"] = lambda mp, k, v: type(mp)(z3.Store(mp.term, k.term, mp.sort.opt.some(v).term), mp.sort)
+
+    def attr_new(m, obj, name):
+        if isinstance(obj, VPy) and obj.obj == ("super",) and name == "__new__":
+            return VPy(("super_new",))
+        return None
+
+    def call_new(m, func, a, kw, nd):
+        if m.contract.qualname != "ASTXpath.__new__":
+            return NotImplemented
+        if isinstance(func, VPy) and func.obj == ("builtin", "super") and not a:
+            return VPy(("super",))
+        if isinstance(func, VPy) and func.obj == ("super_new",):
+            return XP.fresh("new_xpath_object")
+        return NotImplemented
+
+    world.attr_hooks.insert(0, attr_new)
+    world.call_hooks.insert(0, call_new)
+    A(Contract(f"{XM_}:ASTXpath.__new__", params={"cls": "py:cls", "xpath": "str"}, returns="XPathObj", props=P + ["C07"],
+               globals={"_AST_XPATH_CACHE": "Dict[str,XPathObj]"}, modifies=["_AST_XPATH_CACHE"],
+               ensures=["xc_get(_AST_XPATH_CACHE, xpath) == result",
+                        "implies(xc_get(old(_AST_XPATH_CACHE), xpath) is not None, result == xc_get(old(_AST_XPATH_CACHE), xpath) and _AST_XPATH_CACHE == old(_AST_XPATH_CACHE))",
+                        "implies(xc_get(old(_AST_XPATH_CACHE), xpath) is None, _AST_XPATH_CACHE == xc_set(old(_AST_XPATH_CACHE), xpath, result))"],
+               note="the same text always yields the same object; a new text adds exactly one cache entry. __init__ runs on every construction and parses the text again, so the "
+                    "element lists of a cached object are those of its text whether or not it was cached"))
     CACHE = {"_MATCHER_CACHE": "Dict[str,Matcher]"}
     R2 = rec_sort("PatRes", [("matcher", OMAT), ("msg", STR)], tuple_like=True)
     RB = rec_sort("ValRes", [("ok", BOOL), ("msg", STR)], tuple_like=True)
